@@ -163,8 +163,8 @@ use crate::verif::rust_cc_thread_local; // verification hook (H1): destructor-fr
 mod tests;
 
 #[cfg(kani)]
-#[path = "/verif/kani/root.rs"]
-mod verif; // verification hook (H1): ghost state, probes and contract harnesses live in /verif
+#[allow(dead_code, unused_imports, unused_variables, unused_macros, static_mut_refs)]
+mod verif { include!(concat!(env!("VERIF_KANI_DIR"), "/root.rs")); } // verification hook (H1): ghost state, probes and contract harnesses live in /verif
 
 mod cc;
 mod counter_marker;
